@@ -15,7 +15,8 @@ from ..runner import Skip
 RULE = ("cases from rng(seed, 7, 0, i): trajectory graphs of kind r2/r3/se2/se3 (3..20 poses, loops, landmarks with rotated offsets, dense SPD information, "
         "noisy measurements, perturbed initial guess or the textbook straight-line guess with exactly zero headings) and a frame change T with |t| up to 1e4 (1e6 thorough) and rotation from hostile classes (near 180 deg, "
         "w<0, angle at +-pi); K in 1..5 iterations; landmarks sometimes share one initial-guess object, sometimes lie kilometres away with guesses off by thousands; every 3rd case also moves one graph object to the new frame in place. distinct = fingerprint(spec, T, K); non-trivial = T has non-zero translation and (for SE types) non-identity rotation "
-        "and the optimizer moved some vertex by more than 1e-6.")
+        "and the optimizer moved some vertex by more than 1e-6."
+        " later additions: a third of the cases also run with the default tol / max_iter (same stopping point and, for settled runs, transformed final poses) on frames up to 1e6.")
 REQ = ["eval:chi2-frame-invariant", "eval:trajectory-commutes-with-frame-change", "class:se2", "class:se3", "class:r2", "class:r3", "class:T:near180_or_pi", "class:K=1", "class:K=5",
        "class:landmarks", "class:straight_line_initial_guess(exact zero headings)", "class:frame_changed_in_place_on_same_objects", "class:landmarks_share_one_initial_guess_object",
        "class:large_scale_map_far_landmark_guesses", "class:default_arguments_run"]
